@@ -12,6 +12,7 @@
  * usage:
  *   drv_calstore rand  SEED FROM TO LEN     random histories
  *   drv_calstore exh   DEPTH FROM TO        prefix x alphabet^DEPTH
+ *   drv_calstore shapes FROM TO             all types x shapes x 1..3 frequencies
  *   drv_calstore bulk  SEED FROM TO         many handles in one vnacal_new_t,
  *                                           unknowns solved by two of them
  *   drv_calstore count DEPTH
@@ -151,7 +152,8 @@ typedef struct ninfo {
     vnacal_new_t *vnp;
     int id;			/* global id in the trace */
     int type, rows, cols, nf;
-    int grid[2];		/* planned frequency ids */
+    int grid[3];		/* planned frequency ids */
+    int rich;			/* generic standard script (any type / shape) */
     int nstds;			/* accepted standards */
     int step;			/* script position for "useful" standards */
     int fset;			/* set_frequency_vector succeeded */
@@ -691,7 +693,10 @@ static void op_new_alloc(vinfo_t *v, int type, int rows, int cols, int nf,
 	n->cols = cols;
 	n->nf = nf;
 	n->grid[0] = grid[0];
-	n->grid[1] = grid[1];
+	n->grid[1] = nf >= 2 ? grid[1] : grid[0];
+	n->grid[2] = nf >= 3 ? grid[2] : n->grid[1];
+	n->rich = !((type == VNACAL_T8 || type == VNACAL_E12) &&
+		rows == cols && rows <= 2);
 	v->lastn = (int)(n - v->n);
     }
     vt_put("{\"e\":\"NewAlloc\",\"vc\":%d,\"n\":%d,\"type\":\"%s\",\"rows\":%d,"
@@ -702,16 +707,16 @@ static void op_new_alloc(vinfo_t *v, int type, int rows, int cols, int nf,
 /* cls: 0 the planned grid, 1 descending, 2 negative first, 3 equal pair */
 static void op_set_frequency_vector(vinfo_t *v, ninfo_t *n, int cls)
 {
-    int ids[2] = { n->grid[0], n->grid[1] };
-    double fv[2];
+    int ids[3] = { n->grid[0], n->grid[1], n->grid[2] };
+    double fv[3];
     int rv;
 
-    if (cls == 1 && n->nf == 2) {
-	ids[0] = n->grid[1];
-	ids[1] = n->grid[0];
+    if (cls == 1 && n->nf >= 2) {
+	ids[0] = n->grid[n->nf - 1];
+	ids[n->nf - 1] = n->grid[0];
     } else if (cls == 2) {
 	ids[0] = -1;
-    } else if (cls == 3 && n->nf == 2) {
+    } else if (cls == 3 && n->nf >= 2) {
 	ids[1] = ids[0];
     }
     for (int i = 0; i < n->nf; ++i)
@@ -753,8 +758,8 @@ static const char *shape_name[] = { "refl1", "refl2", "thru", "line", "mapm" };
 static int op_add_std(vinfo_t *v, ninfo_t *n, int shape, const int *ports,
 	const int *hs, int ab)
 {
-    static double complex cell[4][2], acell[4][2];
-    double complex *m[4], *a[4];
+    static double complex cell[9][3], acell[9][3];
+    double complex *m[9], *a[9];
     int rows = n->rows, cols = n->cols;
     int nports = shape == SH_REFL1 ? 1 : 2;
     int nhs = shape == SH_REFL1 ? 1 : shape == SH_REFL2 ? 2 :
@@ -763,7 +768,7 @@ static int op_add_std(vinfo_t *v, ninfo_t *n, int shape, const int *ports,
     int rv;
     int ex = 1;		/* every value of the standard was computable */
 
-    if (rows > 2 || cols > 2 || n->nf > 2)
+    if (rows > 3 || cols > 3 || n->nf > 3)
 	return -2;
     for (int f = 0; f < n->nf; ++f) {
 	double complex s[2][2] = { { 0, 0 }, { 0, 0 } };
@@ -820,7 +825,7 @@ static int op_add_std(vinfo_t *v, ninfo_t *n, int shape, const int *ports,
 	a_rows = 1;
 	a_cols = cols;
 	for (int c = 0; c < cols; ++c) {
-	    for (int f = 0; f < 2; ++f)
+	    for (int f = 0; f < 3; ++f)
 		acell[c][f] = 1.0;
 	    a[c] = acell[c];
 	}
@@ -829,7 +834,7 @@ static int op_add_std(vinfo_t *v, ninfo_t *n, int shape, const int *ports,
 	a_cols = cols;
 	for (int r = 0; r < cols; ++r) {
 	    for (int c = 0; c < cols; ++c) {
-		for (int f = 0; f < 2; ++f)
+		for (int f = 0; f < 3; ++f)
 		    acell[r * cols + c][f] = r == c ? 1.0 : 0.0;
 		a[r * cols + c] = acell[r * cols + c];
 	    }
@@ -1452,6 +1457,29 @@ static int add_useful(vinfo_t *v, ninfo_t *n, int variant, int ab)
     int hs[4];
     int k = n->step++;
 
+    if (n->rich && (n->rows > 1 || n->cols > 1)) {
+	/* any type / shape: per port pair six double reflects whose
+	 * combinations give three reflects per port and mixed pairs, and a
+	 * through */
+	static const int combo[6][2] = { {2, 2}, {1, 1}, {0, 0}, {2, 1}, {1, 0},
+	    {0, 2} };
+	static const int pairs[3][2] = { {1, 2}, {1, 3}, {2, 3} };
+	int np = n->rows > n->cols ? n->rows : n->cols;
+	int npairs = np == 2 ? 1 : 3;
+
+	if (k < 7 * npairs) {
+	    ports[0] = pairs[k / 7][0];
+	    ports[1] = pairs[k / 7][1];
+	    if (k % 7 == 6)
+		return op_add_std(v, n, SH_THRU, ports, hs, ab);
+	    hs[0] = combo[k % 7][0];
+	    hs[1] = combo[k % 7][1];
+	    return op_add_std(v, n, SH_REFL2, ports, hs, ab);
+	}
+	hs[0] = user_handle(v, n);
+	ports[0] = 1 + k % np;
+	return op_add_std(v, n, SH_REFL1, ports, hs, ab);
+    }
     if (n->rows == 1 && n->cols == 1) {
 	hs[0] = k < 3 ? refl[k] : user_handle(v, n);
 	return op_add_std(v, n, SH_REFL1, ports, hs, ab);
@@ -1483,6 +1511,11 @@ static int add_useful(vinfo_t *v, ninfo_t *n, int variant, int ab)
 
 static int useful_done(const ninfo_t *n, int variant)
 {
+    if (n->rich && (n->rows > 1 || n->cols > 1)) {
+	int np = n->rows > n->cols ? n->rows : n->cols;
+
+	return n->step >= 7 * (np == 2 ? 1 : 3);
+    }
     if (n->rows == 1 && n->cols == 1)
 	return n->step >= 3;
     return n->step >= (variant == 0 ? 4 : 7);
@@ -1536,7 +1569,10 @@ static int pick_ci(vinfo_t *v, vt_rng_t *rng)
     return r < 97 ? -2 : 100;
 }
 
-static const int cal_grids[][2] = { {1, 2}, {1, 4}, {2, 3}, {3, 4}, {2, 4} };
+static const int cal_grids[][3] = { {1, 2, 0}, {1, 4, 0}, {2, 3, 0}, {3, 4, 0},
+    {2, 4, 0} };
+static const int cal_grids3[][3] = { {1, 2, 3}, {2, 3, 4}, {1, 2, 4}, {1, 3, 4} };
+#define N_CAL_GRIDS3 4
 #define N_CAL_GRIDS 5
 static const int vec_grids[][4] = { {1, 4, 0, 0}, {1, 2, 4, 0}, {1, 3, 4, 0},
     {1, 2, 3, 4} };
@@ -1583,6 +1619,8 @@ static void progress(vinfo_t *v, ninfo_t *n, vt_rng_t *rng)
 	(void)add_useful(v, n, n->id & 1, vt_below(rng, 6) == 0);
     else if (!n->fset)
 	op_set_frequency_vector(v, n, 0);
+    else if (!n->solved && vt_below(rng, 4) == 0)
+	op_set_z0(v, n, vt_below(rng, N_Z));
     else if (!n->solved)
 	op_solve(v, n);
     else if (vt_below(rng, 4) != 0)
@@ -1690,8 +1728,22 @@ static void random_step(vt_rng_t *rng, int *variant)
 	int two = vt_below(rng, 2);
 	int type = vt_below(rng, 2) ? VNACAL_T8 : VNACAL_E12;
 
-	if (q < 82)
+	if (q < 52) {
 	    op_new_alloc(v, type, 1 + two, 1 + two, vt_below(rng, 8) ? 2 : 1, g);
+	} else if (q < 82) {
+	    /* any type, square or rectangular, 1..3 frequencies */
+	    static const int tt[3] = { VNACAL_T8, VNACAL_TE10, VNACAL_T16 };
+	    static const int ut[5] = { VNACAL_U8, VNACAL_UE10, VNACAL_U16,
+		VNACAL_UE14, VNACAL_E12 };
+	    static const int dd[5][2] = { {1, 2}, {1, 3}, {2, 3}, {2, 2}, {1, 1} };
+	    int d = vt_below(rng, 5), nf = 1 + vt_below(rng, 3);
+	    const int *g3 = nf == 3 ? cal_grids3[vt_below(rng, N_CAL_GRIDS3)] : g;
+
+	    if (vt_below(rng, 8) < 3)
+		op_new_alloc(v, tt[vt_below(rng, 3)], dd[d][0], dd[d][1], nf, g3);
+	    else
+		op_new_alloc(v, ut[vt_below(rng, 5)], dd[d][1], dd[d][0], nf, g3);
+	}
 	else if (q < 86)
 	    op_new_alloc(v, VNACAL_T8, 2, 1, 2, g);
 	else if (q < 90)
@@ -1780,7 +1832,7 @@ static void finish_case(void)
 
 /* ------------------------------------------------- bounded-exhaustive */
 
-static const int grid12[2] = { 1, 2 };
+static const int grid12[3] = { 1, 2, 0 };
 
 enum {
     A_MS3, A_MS4, A_MS1, A_MV, A_MU, A_MC, A_MCN, A_DF, A_DL, A_DP, A_DB,
@@ -2166,6 +2218,69 @@ static void chain_case(vt_rng_t *rng)
     }
 }
 
+/* ------------------------------------------------------ shape histories */
+
+/*
+ * Every error-term type on square and rectangular dimensions with 1..3
+ * frequencies and a non-default (complex) z0: allocate, set frequencies and
+ * z0, add the generic standard set, solve, store, and read every accessor
+ * (explicit Get events besides the projection); a second calibration of a
+ * different shape in the same container, delete, save / load.
+ */
+#define N_SHAPE_CASES 120
+
+static int shape_new(vinfo_t *v, int c, int namei)
+{
+    static const int ttypes[3] = { VNACAL_T8, VNACAL_TE10, VNACAL_T16 };
+    static const int utypes[5] = { VNACAL_U8, VNACAL_UE10, VNACAL_U16,
+	VNACAL_UE14, VNACAL_E12 };
+    static const int tdims[5][2] = { {1, 2}, {1, 3}, {2, 3}, {2, 2}, {1, 1} };
+    static const int udims[5][2] = { {2, 1}, {3, 1}, {3, 2}, {2, 2}, {1, 1} };
+    int t = c % 8, d = (c / 8) % 5, nf = 1 + (c / 40) % 3;
+    int type = t < 3 ? ttypes[t] : utypes[t - 3];
+    const int *dims = t < 3 ? tdims[d] : udims[d];
+    const int *grid = nf == 3 ? cal_grids3[c % N_CAL_GRIDS3] :
+	cal_grids[c % N_CAL_GRIDS];
+    ninfo_t *n;
+    int ci = -1;
+
+    op_new_alloc(v, type, dims[0], dims[1], nf, grid);
+    if ((n = last_new(v)) == NULL)
+	return -1;
+    op_set_frequency_vector(v, n, 0);
+    op_set_z0(v, n, 1 + c % (N_Z - 1));
+    while (!useful_done(n, 0)) {
+	if (add_useful(v, n, 0, c % 5 == 0) != 0)
+	    break;
+    }
+    op_solve(v, n);
+    if (n->solved) {
+	op_add_calibration(v, n, namei);
+	ci = LIB(vnacal_find_calibration(v->vcp, name_pool[namei]));
+	for (int w = 0; w < W_COUNT; ++w)
+	    op_get(v, w, ci);
+    }
+    op_new_free(v, n);
+    return ci;
+}
+
+static void shape_case(long c)
+{
+    vinfo_t *v = &VC[0];
+    int c0, c1;
+
+    op_create(0);
+    c0 = shape_new(v, (int)c, 0);
+    c1 = shape_new(v, (int)((c + 53) % N_SHAPE_CASES), 1);
+    op_get(v, W_COLS, c1 >= 0 ? c1 + 1 : 0);
+    if (c0 >= 0) {
+	op_save_load(v, 1);
+	op_delete_calibration(v, c0);
+	for (int w = 0; w < W_COUNT; ++w)
+	    op_get(v, w, c1 >= 0 ? c1 : c0);
+    }
+}
+
 static void seed_case(vt_rng_t *rng, uint64_t seed, long c, uint64_t salt)
 {
     /* vt_seed once mapped consecutive seeds to one splitmix orbit shifted
@@ -2209,6 +2324,18 @@ int main(int argc, char **argv)
 		freed = exh_call(&VC[0], (int)(x % N_ALPHA));
 		x /= N_ALPHA;
 	    }
+	    finish_case();
+	}
+	return 0;
+    }
+    if (argc >= 4 && strcmp(argv[1], "shapes") == 0) {
+	long from = atol(argv[2]), to = atol(argv[3]);
+
+	for (long c = from; c < to && c < N_SHAPE_CASES; ++c) {
+	    vc_reset();
+	    vt_put("{\"e\":\"Reset\",\"case\":\"shapes:0:%ld\"}", c);
+	    vt_end_line();
+	    shape_case(c);
 	    finish_case();
 	}
 	return 0;
